@@ -144,6 +144,8 @@ EXC_TYPES = {
     "SystemExit": SystemExit,
     "KeyboardInterrupt": KeyboardInterrupt,
     "OSError": OSError,
+    "TimeoutError": TimeoutError,
+    "FileNotFoundError": FileNotFoundError,
 }
 
 
